@@ -26,7 +26,19 @@ TOL = 1e-9
 
 
 def scale_of(x):
-    return max(1.0, float(np.sqrt(sum(np.sum(np.abs(np.asarray(b)) ** 2) for b in x.blocks.values()))))
+    """Norm of the data: tolerances are RELATIVE to it (tiny-scale inputs are judged as strictly)."""
+    n = float(np.sqrt(sum(np.sum(np.abs(np.asarray(b)) ** 2) for b in x.blocks.values())))
+    return n if n > 0 else 1.0
+
+
+def maybe_tiny(ctx, rng, x):
+    """Scale all data of x by a tiny or huge factor in a share of the cases."""
+    if rng.random() < 0.12:
+        f = rng.choice([1e-9, 1e-12, 1e-6, 1e7])
+        for s_ in list(x.blocks):
+            x.blocks[s_] = x.blocks[s_] * f
+        ctx.count("feature", "rescaled-data")
+    return x
 
 
 def orthonormal_cols(b, tol):
@@ -88,6 +100,7 @@ def case_qr_svd(ctx, rng):
     x, feats = lingen.rand_matrix(ctx, rng)
     if x is None or not x.blocks:
         return
+    x = maybe_tiny(ctx, rng, x)
     fn = rng.choice(["qr", "qr-stabilized", "svd"])
     via = rng.choice(["function", "autoray"])
     wit = {"fn": fn, "via": via, "x": describe(x, True)}
@@ -209,6 +222,13 @@ def case_eigh(ctx, rng):
     x, feats = lingen.hermitian_matrix(ctx, rng)
     if not x.blocks:
         return
+    x = maybe_tiny(ctx, rng, x)
+    if rng.random() < 0.15:
+        # nearly diagonal hermitian blocks: O(1) diagonal, tiny couplings
+        for s_, b_ in list(x.blocks.items()):
+            d_ = np.diag(np.diag(b_).real)
+            x.blocks[s_] = (d_ + 1e-9 * (b_ - np.diag(np.diag(b_)))).astype(b_.dtype)
+        ctx.count("feature", "nearly-diagonal")
     via = rng.choice(["function", "autoray"])
     wit = {"fn": "eigh", "via": via, "x": describe(x, True)}
     V = lambda mech, msg: ctx.violation(mech, f"eigh via {via}: {msg}", wit)
@@ -259,9 +279,18 @@ def case_solve(ctx, rng):
     # well conditioned square blocks
     for s, b in list(a.blocks.items()):
         a.blocks[s] = b + 3.0 * np.eye(b.shape[0])
+    fa = rng.choice([1.0, 1.0, 1.0, 1e-9, 1e6])
+    fb = rng.choice([1.0, 1.0, 1.0, 1e-9, 1e-12, 1e5])
+    if fa != 1.0:
+        for s in list(a.blocks):
+            a.blocks[s] = a.blocks[s] * fa
     _, _, kind = gen.pick_class(sr, rng, sym, ferm)
     kind = "static" if type(a).static_symmetry else "generic_str"
     b = gen.make_array(sr, rng, sym, [a.indices[0]], fermionic=ferm, kind=kind, values=gen.Values(rng, "gauss", str(next(iter(a.blocks.values())).dtype)), label=77, sparsity=rng.choice([0.0, 0.4]))
+    if fb != 1.0:
+        for s in list(b.blocks):
+            b.blocks[s] = b.blocks[s] * fb
+        ctx.count("feature", "rescaled-data")
     # b may only live where a has a row block
     rows = {s[0] for s in a.blocks}
     for s in list(b.blocks):
@@ -316,7 +345,7 @@ def case_solve(ctx, rng):
     if l1 != l2:
         V("solve-labels", f"a.x carries labels {l1}, b carries {l2}")
         return
-    if not np.allclose(got * s1, exp * s2, atol=TOL * scale_of(b) * 10, rtol=0):
+    if not np.allclose(got * s1, exp * s2, atol=TOL * scale_of(b) * 100, rtol=0):
         V("solve-residual", f"a.x != b, max|diff| {cmp.maxdiff(got * s1, exp * s2)}")
         return
     if len(a.blocks) >= 2:
